@@ -50,7 +50,7 @@ Definition parse_scalar (classify : N -> cclass) (k : kind) (v : json) : outcome
     | JInt z => fin z
     | JBool b => if strict then reject else fin (if b then 1 else 0)%Z
     | JStr s => if strict then reject else match parse_int s with Some z => fin z | None => reject end
-    | JDec m e => if strict then reject else fin (trunc_dec m e)
+    | JDec m e => if strict then reject else if dec_integral m e then fin (trunc_dec m e) else reject
     | _ => reject
     end
   | KFloat gt =>
@@ -563,8 +563,9 @@ Proof.
       match goal with Hg : zlo_le ge ge0 = true, Hl : zhi_le _ _ = true, Ht : zlo_le gt gt0 = true |- _ =>
         rewrite (zopt_ok_le _ _ _ _ _ _ z Hg Hl Ht Ez) end.
       intros Hp; exact Hp. }
-    destruct v; try (intros Hp; exact Hp); try apply C; destruct strict0; try (intros Hp; exact Hp); try apply C.
-    destruct (parse_int s); [apply C|intros Hp; exact Hp].
+    destruct v as [|b|z|m e|s| |]; try (intros Hp; exact Hp); try apply C; destruct strict0; try (intros Hp; exact Hp); try apply C.
+    + destruct (dec_integral m e); [apply C|intros Hp; exact Hp].
+    + destruct (parse_int s); [apply C|intros Hp; exact Hp].
   - (* KFloat *)
     assert (C : forall m e,
                match gt with
